@@ -74,6 +74,8 @@ type Op struct {
 	End    string      `json:"end,omitempty"`
 	Keys   []string    `json:"keys,omitempty"`
 	Ranges [][2]string `json:"ranges,omitempty"`
+	// Huge (batch): instead of Ranges, that many tiny disjoint ranges spread over the key space (built at run time)
+	Huge int `json:"huge,omitempty"`
 	Count  int         `json:"count,omitempty"`
 	Old    int         `json:"old,omitempty"`  // byid: resolve the id from the topology this many events ago
 	Flag   bool        `json:"flag,omitempty"` // batch: need-leader option; sendfail: schedule reload
@@ -234,6 +236,9 @@ func genOp(r *rand.Rand, ws []weighted, actor int, ttl int64) Op {
 		op.Ranges = pickRanges(r, 1+r.Intn(5), 0.4)
 		op.Flag = r.Intn(2) == 0
 		op.Flag2 = r.Intn(4) == 0
+		if r.Intn(60) == 0 {
+			op.Huge = 2100 + r.Intn(1500)
+		}
 	case "loadranges":
 		op.Ranges = pickRanges(r, 1+r.Intn(4), 0.3)
 		op.Count = 1 + r.Intn(8)
